@@ -107,7 +107,9 @@ func (vc *VC) runPass() {
 		case n == "gl$$now":
 			st.heap[n] = vc.initialNow()
 		case len(n) > 9 && n[:9] == "gl$$held$":
-			st.heap[n] = TFalse
+			// whether the caller holds the monitor is unknown unless a precondition locked("mu")
+			// says so (then the call sites are checked for it)
+			st.heap[n] = vc.fresh(n, SBool)
 		default:
 			st.heap[n] = vc.fresh(n, vc.universe[n])
 			if n == "ghost$chanClosed" {
